@@ -25,6 +25,7 @@ from bacpypes.app import Application
 from bacpypes.pdu import Address
 from bacpypes.object import register_object_type, registered_object_types, WritableProperty, Property, Object
 from bacpypes.service.object import ReadWritePropertyServices, ReadWritePropertyMultipleServices
+from bacpypes.service.cov import ChangeOfValueServices
 from bacpypes.apdu import ReadPropertyRequest, ReadPropertyACK, WritePropertyRequest, ReadPropertyMultipleRequest, ReadPropertyMultipleACK, \
     ReadAccessSpecification, PropertyReference, SimpleAckPDU, ComplexAckPDU, ErrorPDU, RejectPDU, AbortPDU, Error
 from bacpypes.primitivedata import Atomic, Null, Boolean, Unsigned, Integer, Real, Double, OctetString, CharacterString, BitString, Enumerated, \
@@ -181,6 +182,16 @@ class DevApp(Application, ReadWritePropertyServices, ReadWritePropertyMultipleSe
         Application.indication(self, apdu)
 
 
+class NeighbourApp(Application, ChangeOfValueServices):
+    """another device in the same process that offers SubscribeCOV (the service installs a computed property on ITS device
+    object); it takes no part in the traffic"""
+    _startup_disabled = True
+
+    def __init__(self, world, cfg, device):
+        Application.__init__(self, device)
+        ChangeOfValueServices.__init__(self)
+
+
 class CliApp(Application):
     _startup_disabled = True
 
@@ -239,7 +250,11 @@ class Run:
                   latency=desc.get('latency', 0.0), jitter=desc.get('jitter', 0.0))
         self.w = w
         lan = w.new_network('lan')
+        if desc.get('cov_neighbour') == 'before':
+            self.neighbour = VlanStack(w, stack_cfg('nb', 21, 'server'), lan, app_class=NeighbourApp)
         self.dev = VlanStack(w, stack_cfg('dev', 20, 'server', maxApdu=desc.get('dev_apdu', 1024), retries=2, tout=2000, tseg=500), lan, app_class=DevApp)
+        if desc.get('cov_neighbour') == 'after':
+            self.neighbour = VlanStack(w, stack_cfg('nb', 21, 'server'), lan, app_class=NeighbourApp)
         self.objs = {}
         self.schema = {}
         for o in sorted(desc['objects'], key=lambda o_: o_.get('order', 1)):
@@ -256,6 +271,10 @@ class Run:
                 if issubclass(dt, Array):
                     v = dt(v)       # arrays are held as ArrayOf instances (index 0 = length)
                 obj.WriteProperty(pid, v, direct=True)
+            # somebody watches changes of some properties (the library's property monitors, as change-of-value detection
+            # and the local schedule use them): a watched property is written and read like any other
+            for pid in o.get('monitored', []):
+                obj._property_monitors[pid].append(lambda old, new, _w=w, _n=o['name'], _p=pid: _w.probe('monitor_called'))
             # a proprietary property added to THIS instance only (Object.add_property); siblings of the class must not get it
             for ex in o.get('extra', []):
                 obj.add_property(Property(ex['pid'], EXTRA_DT[ex['value'][0]], optional=True, mutable=True))
@@ -459,6 +478,9 @@ class Store:
         if p is None:
             return ERR('property', 'unknownProperty')
         key = (o['name'], prop)
+        if o['name'] == 'DEV' and prop == 'activeCovSubscriptions':
+            # this device offers no SubscribeCOV: the (optional) property has no value, whatever a neighbour device offers
+            return ERR('property', 'unknownProperty')
         if o['name'] in self.cmd and prop in ('presentValue', 'priorityArray'):
             return self._cmd_read(self.cmd[o['name']], prop, idx)
         if key in self.unmodelled:
@@ -863,6 +885,12 @@ def gen_desc(seed, idx):
                      {'op': 'rpm', 'specs': [{'obj': sid, 'refs': [{'prop': 'all'}]}]}, {'op': 'rpm', 'specs': [{'obj': oid, 'refs': [{'prop': 'all'}]}]},
                      {'op': 'rpm', 'specs': [{'obj': sid, 'refs': [{'prop': xpid}, {'prop': 'objectName'}]}]}]
         extra_ops = [dict(x, c=0, gap=0.0) for x in extra_ops if rng.random() < 0.8]
+    for o_ in objects:
+        if not o_.get('cmd') and rng.random() < 0.3:
+            arrs = [pid_ for (k_, pid_, dt_, kd_, wr_, hv_) in catalog if objects[k_] is o_ and (kd_.startswith('array:') or kd_.startswith('list:'))]
+            if arrs:
+                o_['monitored'] = sorted(set(rng.sample(arrs, rng.randint(1, len(arrs)))))
+    cov_neighbour = rng.choice([None, None, 'before', 'after'])
     dev_props = ['vendorIdentifier', 'maxApduLengthAccepted', 'numberOfApduRetries', 'apduTimeout', 'apduSegmentTimeout', 'maxSegmentsAccepted', 'segmentationSupported']
     nops = rng.randint(5, 60)
     ops = []
@@ -945,7 +973,7 @@ def gen_desc(seed, idx):
         # the device object, by its identifier and by the wildcard instance
         if rng.random() < 0.12:
             did = ['device', rng.choice([4194303, 1020])]
-            pr = rng.choice(dev_props)
+            pr = rng.choice(dev_props + ['activeCovSubscriptions'])
             if rng.random() < 0.5:
                 ops.append({'op': 'rp', 'obj': did, 'prop': pr, 'c': 0, 'gap': 0.0})
             else:
@@ -972,7 +1000,7 @@ def gen_desc(seed, idx):
     faults = fault_profile(rng, tout, tseg, allow_none=0.4)
     return {'prop': 'C15', 'seed': H(seed, 'C15run', idx) & 0x7fffffff, 'objects': objects, 'ops': ops, 'nclients': rng.choice([1, 2]),
             'dev_apdu': rng.choice([1024, 1024, 128, 50, 480]), 'cli_apdu': rng.choice([1024, 480, 128]),
-            'faults': faults, 'latency': rng.choice([0.0, 0.001]), 'jitter': rng.choice([0.0, 0.0, 0.003])}
+            'faults': faults, 'latency': rng.choice([0.0, 0.001]), 'jitter': rng.choice([0.0, 0.0, 0.003]), 'cov_neighbour': cov_neighbour}
 
 
 def consistency_descs():
